@@ -1,0 +1,11 @@
+//go:build verif
+
+package hack
+
+// UnpackEFace views an interface{} through unsafe as (type word, data word): TRUSTED.
+// eface_data(obj): the data word, i.e. for a pointer stored in the interface the pointer itself.
+//@ uninterp func eface_data(obj interface{}) Ref
+//@ trusted func UnpackEFace
+//@   pure
+//@   fresh
+//@   ensures data_word: result != nil && result.Data == eface_data(obj) && (obj != nil ==> result.Data != nil)
